@@ -1,5 +1,6 @@
 CONSTANTS
   Prefix = "undo"
+  PrefixX = "undox"
 INIT Init
 NEXT Next
 INVARIANT CatalogWF
